@@ -41,7 +41,12 @@ CLAIMED = {
              "delta_empty for an empty side, divided by C(n,2); total over mean units per annotator); every alignment the "
              "library returns (best, soft, fast) and hand-built partitions with arbitrary empty-slot patterns and slot orders, "
              "with and without attached continuum, are recorded with carried, recomputed, single-unitary and permuted-slot "
-             "disorders and judged against it by TLC.",
+             "disorders and judged against it by TLC. The life cycle of alignment OBJECTS is a state machine of its own "
+             "(AlignObj.tla: compute_disorder / lazy .disorder / unitary .disorder raising until computed / disorder and "
+             "n_tuple setters / UnitaryAlignment.compute_disorder, two Alignment objects sharing their unitary objects, two "
+             "dissimilarities): TLC explores every history on a small instance (FreshAgree, Invalidated, LazyTotal; two "
+             "design mutants rejected; the code's stale-total deviation reachable) and random histories on real objects are "
+             "judged event by event by TraceAlignObj.tla.",
         note="Pairwise values are taken through the compiled form (C04 ties that to the formulas); soft alignments without "
              "continuum excluded. One known finding (UnitaryAlignment.compute_disorder with an empty slot, pinned by a test).",
         technique="TLA+ definition of disorder evaluated by TLC on recorded alignments (trace validation)",
